@@ -52,23 +52,105 @@ func genModes(r *lib.Rng) []int64 {
 	}
 }
 
-func genHist(r *lib.Rng) *histIn {
-	h := &histIn{}
+func genClients(r *lib.Rng, h *histIn, small bool) int {
 	var nc int
-	switch r.Intn(40) {
-	case 0:
+	switch x := r.Intn(40); {
+	case x == 0:
 		nc = 0
-	case 1, 2, 3, 4, 5, 6, 7, 8, 9, 10, 11, 12, 13, 14, 15, 16, 17, 18:
+	case x <= 18:
 		nc = 1 + r.Intn(3)
+	case x <= 34 || small:
+		nc = 4 + r.Intn(5)
 	default:
-		nc = 4 + r.Intn(maxClients-4)
+		nc = 9 + r.Intn(maxClients-8) // many clients
 	}
 	allEn := r.Intn(3) != 0
+	ntsHist := r.Intn(6) == 0 && thePeer.ports6 != nil
 	for i := 0; i < nc; i++ {
-		h.en = append(h.en, allEn || r.Intn(4) != 0)
-		h.hasf = append(h.hasf, r.Intn(14) != 0)
+		h.cfg = append(h.cfg, clientCfg{
+			en:   allEn || r.Intn(4) != 0,
+			hasf: r.Intn(5) != 0,
+			nts:  ntsHist && r.Intn(2) == 0,
+		})
 	}
-	alpha := int64(1 + r.Intn(maxFp+1)) // fingerprint ids 0..alpha-1: a small alphabet gives equal fingerprints
+	return nc
+}
+
+// fingerprint ids 0..alpha-1: a small alphabet gives equal fingerprints
+func genAlpha(r *lib.Rng) int64 {
+	if r.Intn(4) == 0 {
+		return int64(1 + r.Intn(maxFp+1))
+	}
+	return int64(1 + r.Intn(8))
+}
+
+func evolve(r *lib.Rng, cur []int64, newFp func() int64, wide bool) []int64 {
+	switch r.Intn(10) {
+	case 0:
+		return nil // everything withdrawn
+	case 1, 2:
+		return cur
+	}
+	var nxt []int64
+	for _, f := range cur {
+		if r.Intn(4) != 0 {
+			nxt = append(nxt, f)
+		}
+	}
+	add := r.Intn(4)
+	if wide {
+		add = r.Intn(30)
+	}
+	for i := add; i > 0; i-- {
+		nxt = append(nxt, newFp())
+	}
+	if len(nxt) > 0 && r.Intn(8) == 0 {
+		nxt = append(nxt, nxt[r.Intn(len(nxt))]) // a second path with the same fingerprint
+	}
+	if r.Intn(5) == 0 {
+		for i := len(nxt) - 1; i > 0; i-- {
+			j := r.Intn(i + 1)
+			nxt[i], nxt[j] = nxt[j], nxt[i]
+		}
+	}
+	return nxt
+}
+
+func genTape(r *lib.Rng, npaths int) []uint32 {
+	var tape []uint32
+	nw := r.Intn(npaths + 3)
+	for j := 0; j < nw; j++ {
+		if r.Intn(3) == 0 {
+			tape = append(tape, uint32(r.U64()))
+		} else {
+			tape = append(tape, wordFor(r, uint64(1+r.Intn(npaths+1))))
+		}
+	}
+	return tape
+}
+
+func genPeer(r *lib.Rng, h *histIn, rd *roundIn) {
+	for range h.cfg {
+		rd.modes = append(rd.modes, genModes(r))
+		rd.vals = append(rd.vals, genVals(r))
+	}
+}
+
+// the number of paths offered at the start: around the number of clients, or far more (40, 100, up to 128)
+func genWidth(r *lib.Rng, nc int) (int, bool) {
+	switch r.Intn(10) {
+	case 0:
+		return lib.Pick(r, 13, 40, 100, maxPaths, 13+r.Intn(maxPaths-12)), true
+	case 1:
+		return nc + 4 + r.Intn(12), true
+	}
+	return r.Intn(nc + 4), false
+}
+
+func genHist(r *lib.Rng) *histIn {
+	h := &histIn{}
+	nc := genClients(r, h, false)
+	alpha := genAlpha(r)
 	newFp := func() int64 {
 		if r.Intn(6) == 0 {
 			return 0 // the metadata-less path
@@ -76,38 +158,14 @@ func genHist(r *lib.Rng) *histIn {
 		return r.Range(0, alpha-1)
 	}
 	var cur []int64
-	for i := r.Intn(nc + 4); i > 0; i-- {
+	n0, wide := genWidth(r, nc)
+	for i := n0; i > 0; i-- {
 		cur = append(cur, newFp())
 	}
 	nr := 2 + r.Intn(9)
 	for ri := 0; ri < nr; ri++ {
 		if ri > 0 {
-			switch r.Intn(10) {
-			case 0:
-				cur = nil // everything withdrawn
-			case 1, 2:
-				// unchanged
-			default:
-				var nxt []int64
-				for _, f := range cur {
-					if r.Intn(4) != 0 {
-						nxt = append(nxt, f)
-					}
-				}
-				for i := r.Intn(4); i > 0; i-- {
-					nxt = append(nxt, newFp())
-				}
-				if len(nxt) > 0 && r.Intn(8) == 0 {
-					nxt = append(nxt, nxt[r.Intn(len(nxt))]) // a second path with the same fingerprint
-				}
-				if r.Intn(5) == 0 {
-					for i := len(nxt) - 1; i > 0; i-- {
-						j := r.Intn(i + 1)
-						nxt[i], nxt[j] = nxt[j], nxt[i]
-					}
-				}
-				cur = nxt
-			}
+			cur = evolve(r, cur, newFp, wide)
 		}
 		if len(cur) > maxPaths {
 			cur = cur[:maxPaths]
@@ -115,22 +173,91 @@ func genHist(r *lib.Rng) *histIn {
 		var rd roundIn
 		rd.fps = append([]int64(nil), cur...)
 		rd.d = 0xFFFFFFFF
-		nw := r.Intn(len(cur) + 3)
-		for j := 0; j < nw; j++ {
-			if r.Intn(3) == 0 {
-				rd.tape = append(rd.tape, uint32(r.U64()))
-			} else {
-				rd.tape = append(rd.tape, wordFor(r, uint64(1+r.Intn(len(cur)+1))))
-			}
+		rd.tape = genTape(r, len(cur))
+		genPeer(r, h, &rd)
+		h.rounds = append(h.rounds, rd)
+	}
+	return h
+}
+
+// genPather: the paths of every round are what a scion.Pather returns, which is refreshed between rounds from
+// a scripted daemon; dup: the server's IA is listed more than once among the Pather's destinations (two servers
+// or peers in the same AS)
+func genPather(r *lib.Rng, dup bool) *histIn {
+	h := &histIn{pather: true}
+	nc := genClients(r, h, true)
+	nia := 1 + r.Intn(4)
+	perm := []int64{1, 2, 3, 4, 5}
+	for i := len(perm) - 1; i > 0; i-- {
+		j := r.Intn(i + 1)
+		perm[i], perm[j] = perm[j], perm[i]
+	}
+	h.dstIAs = append(h.dstIAs, perm[:nia]...)
+	h.q = h.dstIAs[r.Intn(nia)]
+	if dup {
+		for i := 1 + r.Intn(2); i > 0; i-- {
+			k := r.Intn(len(h.dstIAs) + 1)
+			h.dstIAs = append(h.dstIAs[:k], append([]int64{h.q}, h.dstIAs[k:]...)...)
 		}
-		for i := 0; i < nc; i++ {
-			m := genModes(r)
-			if !h.hasf[i] {
-				m = []int64{2, 2, 2} // without a filter the measured offset is not scripted: such a client only fails
-			}
-			rd.modes = append(rd.modes, m)
-			rd.vals = append(rd.vals, genVals(r))
+	} else if r.Intn(12) == 0 {
+		h.q = perm[4] // the server's IA is not among the destinations (nia <= 4)
+	}
+	alpha := genAlpha(r)
+	newFp := func() int64 {
+		if r.Intn(8) == 0 {
+			return 0
 		}
+		return r.Range(0, alpha-1)
+	}
+	cur := map[int64][]int64{}
+	wide := map[int64]bool{}
+	for _, d := range perm {
+		n0, w := genWidth(r, nc)
+		if w && d != h.q && r.Intn(3) != 0 {
+			n0, w = r.Intn(5), false
+		}
+		wide[d] = w
+		for i := n0; i > 0; i-- {
+			cur[d] = append(cur[d], newFp())
+		}
+	}
+	nr := 2 + r.Intn(9)
+	for ri := 0; ri < nr; ri++ {
+		var rd roundIn
+		npaths := 0
+		if (ri == 0 && r.Intn(12) != 0) || (ri > 0 && r.Intn(3) != 0) {
+			rf := &refreshIn{liaOK: r.Intn(10) != 0}
+			total := 0
+			for _, d := range perm {
+				listed := false
+				for _, x := range h.dstIAs {
+					listed = listed || x == d
+				}
+				if !listed && r.Intn(4) != 0 {
+					continue // the daemon is not asked for this IA anyway
+				}
+				if ri > 0 {
+					cur[d] = evolve(r, cur[d], newFp, wide[d])
+				}
+				lim := maxPaths - total
+				if d != h.q && lim > 20 {
+					lim = 20
+				}
+				if len(cur[d]) > lim {
+					cur[d] = cur[d][:lim]
+				}
+				total += len(cur[d])
+				rf.answers = append(rf.answers, answerIn{ia: d, ok: r.Intn(10) != 0, fps: append([]int64(nil), cur[d]...)})
+			}
+			rd.refresh = rf
+		}
+		npaths = len(cur[h.q])
+		if dup {
+			npaths *= 3
+		}
+		rd.d = 0xFFFFFFFF
+		rd.tape = genTape(r, npaths)
+		genPeer(r, h, &rd)
 		h.rounds = append(h.rounds, rd)
 	}
 	return h
@@ -146,22 +273,33 @@ func main() {
 			if replayRand(l[0], l[1], l[2]) {
 				continue
 			}
-			if l[0] == "mp.hist" {
-				replayHist(l[1], l[2])
+			if l[0] == "mp.hist" || l[0] == "mp.pather" || l[0] == "mp.pather.dupia" {
+				replayHist(l[0], l[1], l[2])
 			}
 		}
 		return
 	}
 	r := lib.NewRng(a.Seed)
-	nIntn, nSample, nHist := 30000, 10000, 3000
+	nIntn, nSample, nHist, nPather, nDup := 30000, 10000, 3000, 1500, 150
 	if a.Tier == "thorough" {
-		nIntn, nSample, nHist = 300000, 100000, 30000
+		nIntn, nSample, nHist, nPather, nDup = 300000, 100000, 30000, 15000, 1500
 	}
 	genIntn(r.Fork(), nIntn)
 	genSample(r.Fork(), nSample)
 	hr := r.Fork()
 	for i := 0; i < nHist && deadlineHits < 2; i++ {
 		runHist("", genHist(hr))
+	}
+	pr := r.Fork()
+	for i := 0; i < nPather && deadlineHits < 2; i++ {
+		runHist("", genPather(pr, false))
+	}
+	dr := r.Fork()
+	if os.Getenv("C15_SKIP_DUPIA") != "" {
+		nDup = 0 // aid for mutation testing: the cases of the known defect (server IA listed twice) are left out
+	}
+	for i := 0; i < nDup && deadlineHits < 2; i++ {
+		runHist("", genPather(dr, true))
 	}
 	nd := 0
 	for e, n := range disturbed {
@@ -173,6 +311,7 @@ func main() {
 		w.Close()
 		os.Exit(3)
 	}
+	fmt.Printf("NOTE authenticated NTS requests answered by the peer=%d\n", thePeer.ntsOK)
 	fmt.Printf("NOTE histories=%d rounds dropped because their history was already more than 2 s old=%d histories dropped entirely=%d rounds that ran into their 10 s context deadline=%d malformed datagrams at the peer=%d\n",
 		nHist, slowRounds, abandoned, deadlineHits, thePeer.bad)
 }
